@@ -1,6 +1,6 @@
 (** Theorems about the sigma-coordinate model (property C13), for every
     field, every layer count K and every boundary list. *)
-From Dino Require Import Base.Ops Base.Sums Model.Sigma.
+From Dino Require Import Base.Ops Base.Sums Base.Ord Model.Sigma.
 Local Open Scope F_scope.
 
 Section SigmaThm.
